@@ -154,14 +154,15 @@ def run(c):
               [(rng.rng(1, 120), 0) for _ in range(10 if q else 80)]
     shapes8 = [(k, n if n else rng.rng(k + 1, min(255, k + 60))) for (k, n) in shapes8]
     for (k, n) in (shapes4 if not q else rng.sample(shapes4, 45)):
-        for mode in (rng.below(16), 2):
+        for mode in (rng.below(32), 2):
             L = rng.choice([1, 2, 3, 7, 15, 16, 17, 33])
             reqs.append("E 2 %d %d %d 4 0 %d %d" % (k, n - k, L, rng.below(10 ** 9), mode)); meta.append((2, 4, k, n, L, mode))
     for (k, n) in shapes8:
         L = rng.choice([1, 2, 3, 7, 15, 16, 17, 33, 64])
         seed = rng.below(10 ** 9)
+        chg = rng.choice([0, 16])          # the same for both codecs of a pair: their codewords are compared with each other
         for codec in (1, 2):
-            mode = rng.below(16)
+            mode = rng.below(16) + chg
             reqs.append("E %d %d %d %d 8 0 %d %d" % (codec, k, n - k, L, seed, mode)); meta.append((codec, 8, k, n, L, mode))
     for _ in range(60 if q else 600):
         k = rng.rng(1, 40); r = rng.rng(3, 30); n1 = rng.rng(3, min(r, 7)); L = rng.choice([1, 3, 4, 8, 9, 17])
